@@ -34,6 +34,7 @@ type Scenario struct {
 	Kind  string `json:"kind"` // basic | hook | ctl
 	Beh   string `json:"beh"`  // child behaviour
 	Hold  bool   `json:"hold"` // the event loop handles agent events before a queued terminal status
+	User  bool   `json:"user"` // the task has a user configured (TaskCommandInfo.user = root; the harness runs as root)
 	Steps []Step `json:"steps"`
 	Cls   string `json:"cls,omitempty"`
 }
@@ -321,13 +322,17 @@ func (rn *runner) guard(what string, f func()) {
 func (rn *runner) launch() {
 	script, port := rn.script()
 	mode := map[string]string{"basic": "basic", "hook": "hook", "ctl": "direct"}[rn.sc.Kind]
-	if rn.sc.Kind == "ctl" && (rn.sc.Beh == "fmq" || rn.sc.Beh == "midstate") {
+	if rn.sc.Kind == "ctl" && (rn.sc.Beh == "fmq" || rn.sc.Beh == "midstate" || rn.sc.Beh == "resetstuck") {
 		mode = "fairmq" // FairMQ transitioner: FairMQ state names, multi-step CONFIGURE / RESET
 	}
-	data, _ := json.Marshal(map[string]interface{}{
+	tci := map[string]interface{}{
 		"shell": true, "value": script, "env": []string{"VERIF_TAG=" + rn.tag},
 		"controlPort": port, "controlMode": mode,
-	})
+	}
+	if rn.sc.User {
+		tci["user"] = "root" // prepareTaskCmd: user.Lookup + syscall.Credential on the child's SysProcAttr
+	}
+	data, _ := json.Marshal(tci)
 	envs := rn.envId.String()
 	rn.ti = mesos.TaskInfo{
 		Name:     "verif-exectask#" + rn.tag,
